@@ -260,6 +260,18 @@ class World:
                     require_preferred_engine=req == "T",
                 )
                 return self.report(n, "same" if res is lhs else "new", res)
+            case ["joinmax", n, ln, rn, cols, px, ["opts", pref, bt, tr, req]]:
+                # automatic common columns capped by max_columns
+                from lsst.daf.relation import Join
+                lhs, rhs = self.pool[ln], self.pool[rn]
+                res = Join(self.pred(px), max_columns=self.cols(cols)).partial(rhs).apply(
+                    lhs,
+                    preferred_engine=None if pref == "-" else self.engines[pref],
+                    backtrack=bt == "T",
+                    transfer=tr == "T",
+                    require_preferred_engine=req == "T",
+                )
+                return self.report(n, "same" if res is lhs else "new", res)
             case ["joinon", n, ln, rn, cols, px, bt, tr]:
                 # explicit common columns: Join(pred, min_columns=S, max_columns=S).partial(rhs).apply(lhs, ...)
                 from lsst.daf.relation import Join
